@@ -122,6 +122,15 @@ func TestC06_Layouts(t *testing.T) {
 		}
 		page, forms := genPage(rt, env, ref, k, where)
 		files := refint.Files{lname: layout, "pages/home": page}
+		// other pages of the same directory that use the same layout (with no
+		// inserts, or with their own) must not see this page's inserts
+		others := []string{}
+		if rapid.Bool().Draw(rt, "siblingPages") {
+			files["pages/ablank"] = []*tw.Stmt{{Kind: tw.SUse, Name: ref}, tw.Text("\nnothing inserted\n")}
+			files["pages/zblank"] = []*tw.Stmt{{Kind: tw.SUse, Name: ref}, tw.Text("ignored")}
+			files["pages/zother"] = []*tw.Stmt{{Kind: tw.SUse, Name: ref}, {Kind: tw.SInsert, Name: "r0", E: tw.Str("OTHER-PAGE")}}
+			others = []string{"pages/ablank", "pages/zblank", "pages/zother"}
+		}
 		if rapid.Bool().Draw(rt, "secondLayout") {
 			files["layouts/other"] = []*tw.Stmt{tw.Text("OTHER"), {Kind: tw.SReserve, Name: "r0"}}
 			files["plain"] = []*tw.Stmt{tw.Text("plain page "), tw.Print(tw.Var("i1"))}
@@ -170,6 +179,15 @@ func TestC06_Layouts(t *testing.T) {
 		}
 		if r, f := runTreeCase(c, cs); f != "" {
 			c.Fail(rt, kindOf(f), cs, cs.Want, r, f)
+		}
+		for _, other := range others {
+			oout, _ := in.RenderPage(files, other, env.Model)
+			ocs := cs
+			ocs.Page, ocs.Want = other, wantFromOut(oout)
+			c.Case(true, other+mustJSON(cs.Files)+mustJSON(env.D), "sibling-page")
+			if r, f := runTreeCase(c, ocs); f != "" {
+				c.Fail(rt, kindOf(f), ocs, ocs.Want, r, f)
+			}
 		}
 	})
 }
